@@ -821,7 +821,16 @@ class _Norm(ast.NodeTransformer):
     @staticmethod
     def _propagate_block_temps(fn):
         """N5b: a local every binding of which (`v = e`) is consumed exactly once further down the same straight-line block - only
-        plain assignments to other names in between - and that is read nowhere else, is replaced by its value at each use"""
+        plain assignments to other names in between - and that is read nowhere else, is replaced by its value at each use.
+        One local per round, and the facts are collected afresh after each: the value of one temporary may be (a read of) another
+        (`h = E; text = h; K(text)`), and a use recorded before the first substitution has moved by the time of the second - the
+        second would then rewrite a statement that is already gone and delete a definition whose use is still there."""
+        for _round in range(64):
+            if not _Norm._propagate_one_block_temp(fn):
+                break
+
+    @staticmethod
+    def _propagate_one_block_temp(fn) -> bool:
         pairs = {}
         for blk in _Norm._blocks(fn):
             for i, s in enumerate(blk):
@@ -869,6 +878,8 @@ class _Norm(ast.NodeTransformer):
             for blk, s, t, use in ps:
                 _replace(t, use, s.value)
                 blk[:] = [x for x in blk if x is not s] or [ast.copy_location(ast.Pass(), s)]
+            return True
+        return False
 
     visit_FunctionDef = _visit_fn
     visit_AsyncFunctionDef = _visit_fn
